@@ -46,6 +46,11 @@ CurOk(r) ==
 CbOk(r) ==
   (r.op \in {"enter", "exit"} /\ NoDup(ent'[r.t]) =>
         r.cbcur = (LET q == SelectSeq(ent'[r.t], LAMBDA s : own'[s] = own[r.s]) IN IF q = << >> THEN NoS ELSE Last(q)))
+\* C06: ... and from inside on_close, for the closes an exit or a plain drop performs on the executing thread
+ClOk(r) ==
+  (r.op \in {"exit", "drop"} /\ "clcur" \in DOMAIN r /\ NoDup(ent'[r.t]) =>
+        \A i \in DOMAIN r.clcur :
+           r.clcur[i].cur = (LET q == SelectSeq(ent'[r.t], LAMBDA s : own'[s] = r.clcur[i].reg) IN IF q = << >> THEN NoS ELSE Last(q)))
 \* C06 under a per-layer filter: layer 3 is not shown the spans marked `hide`; its parents, scopes (by scope() and by
 \* repeated parent()) and closes are the registry's with the hidden spans left out; its current span is the most recently
 \* entered span it can see.  Named deviation
@@ -82,7 +87,7 @@ DoT(r) ==
   /\ AEffect(r, ObsOf(r))
   /\ MEffect(r)
   /\ tainted' = (tainted \/ Hazard(r))
-  /\ good' = (good /\ AOk(r, ObsOf(r)) /\ (SetOf(r.live) = {s \in 1..n' : open'[s]}) /\ CurOk(r) /\ CbOk(r) /\ V3Ok(r) /\ IdOk(r))
+  /\ good' = (good /\ AOk(r, ObsOf(r)) /\ (SetOf(r.live) = {s \in 1..n' : open'[s]}) /\ CurOk(r) /\ CbOk(r) /\ ClOk(r) /\ V3Ok(r) /\ IdOk(r))
   /\ lastop' = r
 
 TraceInit == Init /\ l = 0 /\ bad5 = << >> /\ bad6 = << >> /\ f2 = << >> /\ drift = << >> /\ sid = [s \in SpanIds |-> 0]
@@ -114,7 +119,7 @@ TraceNext ==
               /\ sid' = IF r.op = "new" THEN [sid EXCEPT ![n + 1] = r.id] ELSE sid
               /\ hid' = HidAfter(r)
               /\ LET ok5 == AOk5(r, ObsOf(r)) /\ SetOf(r.live) = {s \in 1..n' : open'[s]} /\ IdOk(r)
-                     ok6 == AOk6(r, ObsOf(r)) /\ CurOk(r) /\ CbOk(r) /\ V3Ok(r)
+                     ok6 == AOk6(r, ObsOf(r)) /\ CurOk(r) /\ CbOk(r) /\ ClOk(r) /\ V3Ok(r)
                  IN
                    \* only the first failing operation of a behaviour is reported (later ones may be consequences)
                    /\ bad5' = (IF ok5 \/ ~good \/ tainted' THEN bad5 ELSE Append(bad5, l + 1))
